@@ -234,6 +234,9 @@ func VerifC14Reduce(kind, n, keyMode int) {
 	// (b) :key results are stored into the argument
 	vrt.Carve("C14-reduce-empty-and-key", (empty && !hasInit) ||
 		(cls == zzC14BValid && keyMode != 0 && kind != zzC14String && s < e))
+	// what remains of C14-reduce-empty-and-key after the repair of (b): the
+	// existing tests pin (reduce #'+ '()) => nil
+	vrt.Carve("C14-reduce-empty-not-called", empty && !hasInit)
 	orig := zzC14Seq(kind, c.vals)
 	form := slip.List{slip.Symbol("reduce"), zzC14Quote(zzC14NewSub()), zzC14Quote(orig)}
 	form = append(form, c.keywords()...)
